@@ -5,7 +5,7 @@
 //! (the reference is NOT tuned to match); run them with `cargo test -- --ignored --nocapture`.
 
 use std::panic::{catch_unwind, AssertUnwindSafe};
-use std::sync::{mpsc, Arc, Mutex};
+use std::sync::{Arc, Mutex};
 use std::time::Duration;
 
 use ip::traits::PrefixSet as _;
@@ -17,6 +17,7 @@ use irrfake::pfx::Pfx;
 use irrfake::server::{Fault, Faults, LogEntry, Server};
 
 #[derive(Debug, Clone)]
+#[allow(dead_code)] // payloads are only shown through Debug
 enum Real {
     Ranges(Vec<Range>),
     Err(String),
@@ -40,14 +41,6 @@ fn run_real(port: u16, text: &str) -> Real {
         Ok(Err(e)) => Real::Err(e),
         Err(p) => Real::Panic(p.downcast_ref::<String>().cloned().or_else(|| p.downcast_ref::<&str>().map(|s| s.to_string())).unwrap_or_default()),
     }
-}
-
-/// Like [`run_real`] but gives up after `secs` (the worker thread is leaked if it hangs).
-fn run_real_timeout(port: u16, text: &str, secs: u64) -> Option<Real> {
-    let (tx, rx) = mpsc::channel();
-    let text = text.to_owned();
-    std::thread::spawn(move || tx.send(run_real(port, &text)));
-    rx.recv_timeout(Duration::from_secs(secs)).ok()
 }
 
 /// First (shortest) probe on which the real output and the reference disagree: (probe, expected, actual).
@@ -170,12 +163,13 @@ fn differential_generated_expressions() {
     let t0 = std::time::Instant::now();
     let dbs = [(1, Size::Small), (2, Size::Small), (3, Size::Medium), (4, Size::Medium), (5, Size::Small), (6, Size::Large), (7, Size::Medium)];
     for (seed, size) in dbs {
-        let db = if seed == 7 { generate_with(seed, GenOpts { size, rs_as_members: true }) } else { generate(seed, size) };
+        let db = if seed == 7 { generate_with(seed, GenOpts { rs_as_members: true, ..GenOpts::new(size) }) } else { generate(seed, size) };
         assert_eq!(Db::from_json(&db.to_json()).unwrap(), db, "JSON round trip");
         let server = Server::start(db.clone(), Faults::default()).unwrap();
         for i in 0..60u64 {
+            // realistic prefix lengths: `generate_expr` leaves out NOT here (see GenOpts::max_prefix_len)
             let e = generate_expr(seed * 1000 + i, &db, 1 + (i % 3) as u32);
-            assert!(e.is_evaluable());
+            assert!(e.is_evaluable() && !e.to_rpsl().contains("NOT"));
             if hollow_as_set_referenced(&e, &db) {
                 // IRRd answers `D` for an as-set that expands to nothing; see the ignored test
                 // `deviation_existing_but_empty_as_set_aborts_evaluation`.
@@ -198,6 +192,32 @@ fn differential_generated_expressions() {
     assert!(compared >= 300, "only {compared} expressions compared");
 }
 
+/// `NOT` (and filter-sets containing `NOT`) on databases whose prefixes are at most /12, where the
+/// real evaluator's complement operation is affordable.
+#[test]
+fn differential_with_not_on_short_prefixes() {
+    let (mut compared, mut with_not, mut failures) = (0, 0, Vec::new());
+    for (seed, size) in [(31, Size::Small), (32, Size::Small), (33, Size::Medium), (34, Size::Medium)] {
+        let db = generate_with(seed, GenOpts { max_prefix_len: Some(12), ..GenOpts::new(size) });
+        let server = Server::start(db.clone(), Faults::default()).unwrap();
+        for i in 0..50u64 {
+            let e = generate_expr_with(seed * 1000 + i, &db, &GenExprOpts { depth: 1 + (i % 3) as u32, max_prefix_len: Some(12), ..GenExprOpts::default() });
+            if hollow_as_set_referenced(&e, &db) {
+                continue;
+            }
+            compared += 1;
+            with_not += e.to_rpsl().contains("NOT") as usize;
+            if check(server.port(), &e, &db, &Policy::STRICT, i).is_some() {
+                failures.push(report(server.port(), &e, &db, &Policy::STRICT, i));
+            }
+        }
+        assert_log_ordered(&server.log());
+    }
+    println!("compared {compared} expressions ({with_not} with NOT), {} disagreements", failures.len());
+    assert!(failures.is_empty(), "{}", failures.join("\n"));
+    assert!(compared >= 150 && with_not >= 40, "{compared} / {with_not}");
+}
+
 /// Dangling names: the real evaluator behaves like `Policy::BGPFU` (unknown as-set aborts,
 /// unknown route-set / filter-set / AS silently evaluate to the empty set).
 #[test]
@@ -207,7 +227,7 @@ fn differential_unknown_names_match_bgpfu_policy() {
         let db = generate(seed, Size::Small);
         let server = Server::start(db.clone(), Faults::default()).unwrap();
         for i in 0..50u64 {
-            let e = generate_expr_with(seed * 1000 + i, &db, &GenExprOpts { depth: 2, unknown_names: true, unevaluable: false });
+            let e = generate_expr_with(seed * 1000 + i, &db, &GenExprOpts { depth: 2, unknown_names: true, allow_not: false, ..GenExprOpts::default() });
             if hollow_as_set_referenced(&e, &db) {
                 continue;
             }
@@ -275,6 +295,17 @@ fn deviation_and_binds_looser_than_or() {
     expect_agreement(&tiny_db(), Faults::default(), "AS65001 AND AS65002 OR AS65003", &Policy::STRICT);
 }
 
+/// `S^n-m` with `n <= 32 < m` on a set holding both families (e.g. `AS-FOO^24-48`): the /24../32
+/// more-specifics of the IPv4 members belong to the result. `rpsl` 0.1.1 (`expr/eval/apply.rs`:
+/// `range.new_prefix_length(u)?`) cannot build length 48 for an IPv4 range and returns
+/// `EvaluationError::RangeOperator`; bgpfu's `sink_error` swallows it, so ALL IPv4 members vanish
+/// silently. Layer: dependency crate `rpsl` + /repo/lib/src/query.rs (`sink_error` always true).
+#[test]
+#[ignore = "rpsl 0.1.1 + bgpfu-lib: ^n-m with m > 32 silently drops all IPv4 members of the set"]
+fn deviation_range_upper_bound_above_32_drops_ipv4_members() {
+    expect_agreement(&tiny_db(), Faults::default(), "AS65002^24-48", &Policy::STRICT);
+}
+
 /// A dangling route-set / filter-set reference is silently the empty set, so under NOT it
 /// becomes ANY (fail-open), while a dangling as-set aborts. Layer: /repo/lib/src/query.rs
 /// (`sink_error` always returns true; `unwrap_or_else(|| "NOT ANY")`).
@@ -324,6 +355,41 @@ fn deviation_route_set_member_with_range_operator_is_dropped() {
     assert!(ranges.iter().any(|r| range_contains(r, "10.1.0.0/16".parse().unwrap())), "10.0.0.0/8^16-24 was dropped; output {ranges:?}");
 }
 
+/// Complementing a set costs time and memory exponential in the prefix length (`NOT {10.0.0.0/20}`:
+/// ~1 s / 100 MB; `/24`: ~17 s / 1.5 GB; `/32` or any realistic IPv6 prefix: allocation failure,
+/// process abort). Results are correct whenever the computation finishes.
+/// Layer: dependency crate `generic-ip` 0.1.1 (`!set == PrefixSet::one() - set`, then `aggregate()`).
+/// The real evaluation runs in a child process (this test binary re-executed) under `ulimit -v`.
+#[test]
+#[ignore = "generic-ip 0.1.1: NOT needs exponential time/memory; aborts on realistic prefixes"]
+fn deviation_not_of_ordinary_prefix_exhausts_memory() {
+    for text in ["NOT {10.0.0.0/16}", "NOT {10.0.0.0/22}", "NOT AS65002", "NOT {192.0.2.1/32}"] {
+        let t0 = std::time::Instant::now();
+        let out = std::process::Command::new("sh")
+            .arg("-c")
+            .arg("ulimit -v 2000000; exec \"$0\" --exact child_evaluate_expression_from_env --ignored --nocapture")
+            .arg(std::env::current_exe().unwrap())
+            .env("IRRFAKE_CHILD_EXPR", text)
+            .output()
+            .unwrap();
+        let stdout = String::from_utf8_lossy(&out.stdout);
+        let verdict = stdout.lines().find(|l| l.starts_with("CHILD")).unwrap_or("(no result)").to_owned();
+        println!("{text:22} -> {:?} after {:?}: {verdict}; stderr tail: {:?}", out.status, t0.elapsed(), String::from_utf8_lossy(&out.stderr).lines().filter(|l| l.contains("memory")).collect::<Vec<_>>());
+        assert!(out.status.success() && verdict.contains("agrees") && t0.elapsed() < Duration::from_secs(5), "'{text}' could not be evaluated within 2 GB / 5 s");
+    }
+}
+
+/// Helper for the test above (does nothing unless `IRRFAKE_CHILD_EXPR` is set).
+#[test]
+#[ignore = "child-process helper"]
+fn child_evaluate_expression_from_env() {
+    let Ok(text) = std::env::var("IRRFAKE_CHILD_EXPR") else { return };
+    let db = tiny_db();
+    let server = Server::start(db.clone(), Faults::default()).unwrap();
+    let e = parse(&text).unwrap();
+    println!("CHILD {}", check(server.port(), &e, &db, &Policy::STRICT, 0).map_or("agrees with the reference".to_string(), |w| format!("DISAGREES: {w}")));
+}
+
 // ---- constructs the real evaluator panics on -------------------------------------------------------
 
 #[test]
@@ -331,9 +397,15 @@ fn unevaluable_constructs_panic_in_real_evaluator() {
     let server = Server::start(tiny_db(), Faults::default()).unwrap();
     let loc = Arc::new(Mutex::new(String::new()));
     let loc2 = loc.clone();
-    let prev = std::panic::take_hook();
+    // record the panic location for this thread only; other tests keep the default hook
+    let prev = Arc::new(std::panic::take_hook());
+    let (prev2, me) = (prev.clone(), std::thread::current().id());
     std::panic::set_hook(Box::new(move |info| {
-        *loc2.lock().unwrap() = info.location().map(|l| format!("{}:{}", l.file(), l.line())).unwrap_or_default();
+        if std::thread::current().id() == me {
+            *loc2.lock().unwrap() = info.location().map(|l| format!("{}:{}", l.file(), l.line())).unwrap_or_default();
+        } else {
+            prev2(info);
+        }
     }));
     let mut seen = vec![];
     for text in ["PeerAS", "AS65001 AND PeerAS", "<^AS65001$>", "<^AS65001 .* AS-ONE$>", "community(65000:1)", "community.contains(65000:1)", "AS65001 AND NOT community(65000:1)"] {
@@ -342,7 +414,7 @@ fn unevaluable_constructs_panic_in_real_evaluator() {
         seen.push(format!("{text:40} -> {real:?} at {}", loc.lock().unwrap()));
         assert!(matches!(real, Real::Panic(_)), "{text}: {real:?}");
     }
-    std::panic::set_hook(prev);
+    std::panic::set_hook(Box::new(move |info| prev(info)));
     println!("{}", seen.join("\n"));
 }
 
@@ -422,32 +494,6 @@ fn refused_connection_is_an_error() {
         other => panic!("{other:?}"),
     }
     assert!(server.log().is_empty());
-}
-
-/// What happens when the server goes away mid-pipeline. Observed behaviour is printed; the only
-/// hard requirement here is that the log shows the close.
-#[test]
-fn connection_closed_by_server() {
-    let server = Server::start(tiny_db(), faults(&[("!6AS65002", Fault::CloseConnection)])).unwrap();
-    let real = run_real_timeout(server.port(), "AS65002 OR AS65001", 10);
-    println!("CloseConnection on !6AS65002 -> {real:?}");
-    let log = server.log();
-    assert!(log.iter().any(|e| e.query == "!6AS65002" && e.response_kind == "closed"));
-    assert!(!log.iter().any(|e| e.query == "!gAS65001"), "nothing is answered after the close");
-
-    let server = Server::start(tiny_db(), Faults { close_after_queries: Some(3), ..Faults::default() }).unwrap();
-    let real = run_real_timeout(server.port(), "AS65002 OR AS65001", 10);
-    println!("close_after_queries=3 -> {real:?}");
-    let kinds: Vec<String> = server.log().iter().map(|e| format!("{}:{}", e.query, e.response_kind)).collect();
-    assert_eq!(kinds, ["!!:none", "!nirrc-0.1.0:C", "!gAS65002:A", "!6AS65002:closed"]);
-}
-
-#[test]
-fn garbage_response() {
-    let server = Server::start(tiny_db(), faults(&[("!gAS65001", Fault::Garbage(b"Zwhat is this\n".to_vec()))])).unwrap();
-    let real = run_real_timeout(server.port(), "AS65001 OR AS65002", 10);
-    println!("garbage status line -> {real:?}");
-    assert!(server.log().iter().any(|e| e.response_kind == "garbage" && e.response_len == 14));
 }
 
 /// Many clients at once, each pipelining; every connection must be answered in order.
